@@ -57,3 +57,6 @@ def run(ctx):
     n = 600 if q else 6000
     progs = [S.random_program(ctx.rng, n_ids=4, length=30, p_mut=0.3, p_complete=0.08, windows=True) for _ in range(n)]
     _sched.validate(ctx, progs, "random histories with completion from scripts and from outside")
+    if not q:
+        from .. import suite
+        suite.run(ctx, ["sched"])
